@@ -75,6 +75,7 @@ type FuncContract struct {
 	Modifies  []*SExpr
 	HasMod    bool
 	Loops     map[int]*LoopSpec
+	InlLoops  map[string]*LoopSpec // "callee#ord": extra invariants for loops of inlined callees
 	Asserts   []AtCall
 	Uses      []Clause // lemma instantiations (only proved lemmas may be used)
 	Insts     []InstHint // instantiation hints: candidate terms for quantifier binders
@@ -442,14 +443,26 @@ func ParseContractFile(path string) (*ContractFile, error) {
 			if len(f) < 3 {
 				return nil, fail(l, "loop K invariant|decreases expr")
 			}
-			k, err := strconv.Atoi(f[0])
-			if err != nil {
-				return nil, fail(l, "loop ordinal: %v", err)
-			}
-			ls := curF.Loops[k]
-			if ls == nil {
-				ls = &LoopSpec{}
-				curF.Loops[k] = ls
+			var ls *LoopSpec
+			if strings.Contains(f[0], "#") {
+				if curF.InlLoops == nil {
+					curF.InlLoops = map[string]*LoopSpec{}
+				}
+				ls = curF.InlLoops[f[0]]
+				if ls == nil {
+					ls = &LoopSpec{}
+					curF.InlLoops[f[0]] = ls
+				}
+			} else {
+				k, err := strconv.Atoi(f[0])
+				if err != nil {
+					return nil, fail(l, "loop ordinal: %v", err)
+				}
+				ls = curF.Loops[k]
+				if ls == nil {
+					ls = &LoopSpec{}
+					curF.Loops[k] = ls
+				}
 			}
 			c, err := parseClause(l, f[2])
 			if err != nil {
